@@ -103,7 +103,9 @@ func c20Configs(tier string) []c20Cfg {
 	fds := []*string{nil, sp(""), sp("foo"), sp("-1"), sp("0"), sp("1"), sp("2"), sp("3")}
 	names := []*string{nil, sp(""), sp("varlink"), sp("a:b"), sp("varlink:a"), sp("a:varlink"), sp("varlink:varlink"),
 		sp("a:b:c"), sp("varlink:a:b"), sp("a:varlink:b"), sp("a:b:varlink"), sp("varlink:varlink:b"), sp("a:varlink:varlink"),
-		sp("Varlink:a"), sp("a:b:c:varlink"), sp("varlink:b:c:d"), sp("a:varlinkx:varlink")}
+		sp("Varlink:a"), sp("a:b:c:varlink"), sp("varlink:b:c:d"), sp("a:varlinkx:varlink"),
+		// empty entries are entries: they count for the arity and for the position of "varlink"
+		sp(":varlink"), sp("varlink:"), sp(":"), sp("a::varlink"), sp("varlink:a:"), sp("::varlink"), sp(":varlink:")}
 	kinds := []string{"sock", "file", "pipe"}
 	var out []c20Cfg
 	for _, p := range pids {
